@@ -525,6 +525,32 @@ Qed.
 Lemma fs_of_rate_id r u : fs_of_rate r u == r.
 Proof. unfold fs_of_rate. field. apply factor_nonzero. Qed.
 
+(* ------------------------------------------------------------------ a shared method dict *)
+Lemma shared_dict_some f rates : shared_dict_fs (Some f) rates = map (fun _ => f) rates.
+Proof. induction rates; simpl; [reflexivity|]. f_equal. assumption. Qed.
+
+Lemma shared_dict_first r t : shared_dict_fs None (r :: t) = map (fun _ => r) (r :: t).
+Proof. simpl. f_equal. apply shared_dict_some. Qed.
+
+(* each analyzer uses its own rate when the dict is not shared, or all rates agree *)
+Lemma shared_dict_single r : shared_dict_fs None [r] = [r].
+Proof. reflexivity. Qed.
+Lemma map_const_id (r : Q) l : (forall x, In x l -> x = r) -> map (fun _ => r) l = l.
+Proof.
+  induction l; simpl; intros H; [reflexivity|].
+  f_equal; [symmetry; apply H; left; reflexivity|].
+  apply IHl. intros x Hx. apply H. right; assumption.
+Qed.
+Lemma shared_dict_same_rate r rates : (forall x, In x rates -> x = r) ->
+  shared_dict_fs None rates = rates.
+Proof.
+  intros H. destruct rates as [|a t]; [reflexivity|].
+  rewrite shared_dict_first. assert (a = r) by (apply H; left; reflexivity). subst a.
+  apply map_const_id. assumption.
+Qed.
+Lemma w_shared_dict : shared_dict_fs None [10; 2] = [10; 10].
+Proof. reflexivity. Qed.
+
 (* ------------------------------------------------------------------ the table *)
 Definition lib_contract (e : env) : Prop :=
   leq (eLib e) (true_bins (eff_Fs e) (eNFFT e) (eSides e)).
